@@ -22,11 +22,13 @@ LEVEL = 'exploration'
 RULE = ('grid (exhaustive every run): HEADER_TABLE_SIZE {0,4096,65536} x ENABLE_PUSH {0,1} x MAX_CONCURRENT_STREAMS {absent,0,1,100} x '
         'INITIAL_WINDOW_SIZE {0,1,65535,2^31-1} x MAX_FRAME_SIZE {2^14,32768,2^24-1} x MAX_HEADER_LIST_SIZE {absent,0,65536} x '
         'ENABLE_CONNECT_PROTOCOL {0,1}; per combination: settings-view checks on the server before the client preface is read, '
-        'stream-1 behaviour on both sides, next stream ids, and a continuation (requests with bodies, responses, trailers, push '
+        'stream-1 behaviour on both sides (refused body attempts on the live connections, late WINDOW_UPDATE / RST_STREAM for the finished '
+        'stream, last_stream_id of a server GOAWAY), send windows afterwards, next stream ids, and a continuation (requests with bodies, responses, trailers, push '
         'with stream 1 as parent, pings) whose events are compared on both ends; thorough repeats combinations with random '
         'continuation orders; non-trivial = all phases judged; distinct = the combination')
 MINIMA = {'settings_views_compared': 1500, 'stream1_behaviour_checked': 1500, 'continuations_checked': 1000,
-          'push_on_stream1_checked': 300}
+          'push_on_stream1_checked': 300, 'late_frames_for_stream_1_checked': 3000,
+          'refused_body_attempts_on_live_connection': 1500}
 EXHAUSTIVE = {}
 
 GRID = list(itertools.product([0, 4096, 65536], [0, 1], [None, 0, 1, 100], [0, 1, 65535, 2 ** 31 - 1], [2 ** 14, 32768, 2 ** 24 - 1],
@@ -141,6 +143,16 @@ def run_case(idx, rng, tier, rep):
         if rr.exc is None or rr.frames:
             return fail('C25:client-can-send-on-upgraded-stream:%s' % op, 'client %s on stream 1 returned normally / emitted %s' %
                         (op, [f.name for f in rr.frames]))
+    # ... and trying leaves no trace on the live connection either (it is refused, emits nothing, and the send windows still
+    # say what the server granted: checked below when stream 3 is opened)
+    attempts = 0
+    for size in rng.sample([1, 100, 16384, 16384, 16384, 20000], rng.choice([1, 2, 3])):
+        rr = d.c.call('send_data', 1, b'b' * size)
+        attempts += 1
+        if rr.exc is None or rr.frames:
+            return fail('C25:client-can-send-on-upgraded-stream:send_data', 'live client send_data(1, %d bytes) returned normally / emitted %s' %
+                        (size, [f.name for f in rr.frames]))
+    rep.count('refused_body_attempts_on_live_connection', attempts)
     if order:
         d.settle()
     # DATA on stream 1 delivered to the server is an error (the request is complete)
@@ -190,12 +202,39 @@ def run_case(idx, rng, tier, rep):
         v = getattr(tap.c, attr)
         if v != 0:
             return fail('C25:stream-1-not-closed-after-response:%s' % tap.name, '%s = %d after stream 1 ended both ways' % (attr, v))
+    # stream 1 is over and forgotten (the open_*_streams reads above sweep closed streams); it was a real stream all the same:
+    # frames the client sent for it before it saw the end are tolerated, and a GOAWAY from the server names it
+    for late in (wire.build_window_update(1, 1000), wire.build_rst(1, 8), wire.build_window_update(1, 1000) + wire.build_rst(1, 0)):
+        ps = core.Tap.clone(d.s)
+        rr = ps.call('receive_data', late)
+        rep.count('late_frames_for_stream_1_checked')
+        if rr.exc is not None or any(f.type == wire.GOAWAY for f in rr.frames):
+            return fail('C25:late-frame-for-finished-stream-1-kills-connection',
+                        'server receive_data(%s) after stream 1 ended: exc %r frames %s' %
+                        ([f.brief() for f in wire.parse_frames(late)[0]], rr.exc, [f.brief() for f in rr.frames]))
+    ps = core.Tap.clone(d.s)
+    rr = ps.call('close_connection')
+    ga = [f for f in rr.frames if f.type == wire.GOAWAY]
+    if rr.exc is not None or len(ga) != 1 or ga[0].last_stream_id != 1:
+        return fail('C25:goaway-does-not-name-stream-1', 'server close_connection() after answering stream 1: exc %r, GOAWAY last_stream_id %s' %
+                    (rr.exc, [f.last_stream_id for f in ga]))
+    # refused attempts on the finished stream at the server leave no trace either
+    for size in rng.sample([1, 16384, 16384, 30000], rng.choice([1, 2])):
+        rr = d.s.call('send_data', 1, b'b' * size)
+        if rr.exc is None or rr.frames:
+            return fail('C25:server-can-send-on-finished-stream-1', 'send_data(1, %d) after END_STREAM returned normally / emitted %s' %
+                        (size, [f.name for f in rr.frames]))
     # ---------------- continuation
     rep.count('continuations_checked')
     limit = mcs if mcs is not None else 100
     r = d.call('c', 'send_headers', 3, REQ + [(b'x-n', b'3')])
     if r.exc is not None:
         return fail('C25:first-client-stream-refused:' + core.exc_key(r.exc), 'send_headers(3) raised %r' % r.exc)
+    # nothing flow-controlled has gone from client to server yet: the whole default window is available on stream 3
+    lw = d.c.call('local_flow_control_window', 3)
+    if lw.exc is not None or lw.value != 65535:
+        return fail('C25:client-send-window-wrong-after-upgrade', 'client local_flow_control_window(3) = %r; the server granted 65535 and '
+                    'nothing was sent (%d refused body attempts on stream 1)' % (lw.value if lw.exc is None else lw.exc, attempts))
     r = d.call('c', 'send_data', 3, b'req-body', end_stream=True)
     out = d.settle()
     sev = [e for side, rr in out if side == 's' and rr is not None for e in rr.events if getattr(e, 'stream_id', None) == 3]
@@ -205,6 +244,11 @@ def run_case(idx, rng, tier, rep):
         r = d.call('s', 'send_headers', 2, RESP, end_stream=True)
         if r.exc is not None:
             return fail('C25:pushed-response-refused:' + core.exc_key(r.exc), repr(r.exc))
+    # the server has sent len(body) flow-controlled bytes so far, all on stream 1
+    lw = d.s.call('local_flow_control_window', 3)
+    if lw.exc is not None or lw.value != min(iws, 65535 - len(body)):
+        return fail('C25:server-send-window-wrong-after-upgrade', 'server local_flow_control_window(3) = %r, expected %d (client window %d, '
+                    '%d bytes sent on stream 1)' % (lw.value if lw.exc is None else lw.exc, min(iws, 65535 - len(body)), iws, len(body)))
     r = d.call('s', 'send_headers', 3, RESP)
     r2 = d.call('s', 'send_headers', 3, [(b'x-trailer', b'done')], end_stream=True)
     d.call('c', 'ping', b'pingpong')
